@@ -5,6 +5,7 @@
   Together with `Cspuz.C11.C11_compose` this yields the property for this puzzle.
 -/
 import CspuzModel.Proofs.C11Geradeweg
+import CspuzModel.Proofs.C11LoopEx
 namespace Cspuz.C11.Geradeweg
 open Cspuz Cspuz.Spec Cspuz.Puzzles.Geradeweg Cspuz.Spec.Geradeweg
 
@@ -41,5 +42,35 @@ example : WellFormed exPb1 := by
   intro row hr
   simp only [exPb1, List.mem_cons, List.not_mem_nil, or_false] at hr
   subst hr; rfl
+
+/-! ### non-vacuity of the rules: the 2 × 2 board with a 1 in a corner is solved by the tour of its four cells (the
+loop turns in the numbered cell, both segments have length 1), and hence the posted program has a model -/
+
+def exPb2 : Problem := { height := 2, width := 2, problem := [[1, 0], [0, 0]] }
+
+theorem exPb2_wf : WellFormed exPb2 := by
+  refine ⟨by decide, by decide, rfl, ?_⟩
+  intro row hr
+  simp only [exPb2, List.mem_cons, List.not_mem_nil, or_false] at hr
+  rcases hr with rfl | rfl <;> rfl
+
+open Cspuz.Spec.Loop in
+theorem exPb2_rules : Rules exPb2 (segAnswer 1 1 fun _ => true) := by
+  refine ⟨fun _ => true, rfl, Cspuz.Proofs.C11LoopEx.unitLoop, ?_⟩
+  intro y hy x hx hv
+  have hy' : y = 0 ∨ y = 1 := by simp only [exPb2] at hy; omega
+  have hx' : x = 0 ∨ x = 1 := by simp only [exPb2] at hx; omega
+  rcases hy' with rfl | rfl <;> rcases hx' with rfl | rfl
+  · refine ⟨by decide, fun _ => by decide, fun _ => by decide⟩
+  · exact absurd hv (by decide)
+  · exact absurd hv (by decide)
+  · exact absurd hv (by decide)
+
+open Cspuz.Spec.Loop in
+example : ∃ P σ, program exPb2 = .ok P ∧ Sat P.decls P.cs σ ∧
+    P.keyVals σ = (segAnswer 1 1 fun _ => true).map some := by
+  obtain ⟨P, hP⟩ := total exPb2 exPb2_wf
+  obtain ⟨σ, hσ, hk⟩ := ((program_iff_rules exPb2 exPb2_wf P hP).1 _).mpr exPb2_rules
+  exact ⟨P, σ, hP, hσ, hk⟩
 
 end Cspuz.C11.Geradeweg
